@@ -1671,6 +1671,10 @@ def declare_rules(ck):
             "facet by facet over (number of adjacent cells 1|2) x (facet masked 0|1, the values add_mask_* store): the per-facet counter starts at 0 and is incremented once per (cell, local "
             "facet) incidence, and a facet is put into the boundary exactly if it has ONE adjacent cell and is not masked - a masked facet is never selected whatever its cell count "
             "(masks of patch / region / interface parts contain interior facets)", min_instances=8)
+    ck.rule("E10.target-wrapper-choice", "TargetSetRefineParentWrapper<Parent>::fill_target_sets (StandardRefinery<MeshPart>): decision table over 'the coarse part has a topology' (coarse_ish != nullptr): "
+            "the SimpleTargetRefineWrapper, which ignores the part's topology, is reached ONLY on paths where the part has none; with a topology the orientation-aware TargetRefineWrapper is "
+            "used or the input is refused (XASSERT) - the part's own index sets are refined in the part's orientation, so simply refined targets map refined sub-entities onto the wrong "
+            "children of the right parent entity", min_instances=12)
     ck.rule("E10.transfer-siblings", "kernel/geometry classes: move constructor, move assignment, clone(other) and clone() of one class transfer the same data members - a member transferred by one sibling is "
             "transferred or re-established by every other (otherwise the destination keeps a stale member, e.g. the facet neighbours of the mesh that was overwritten)", min_instances=137)
     ck.rule("E10.collection-guards", "mesh_node.hpp: a loop over one member collection of a node (mesh part nodes, halos, patches, ...) is not reached only under a condition on a different member collection "
@@ -3025,6 +3029,40 @@ def check_boundary_select(ck, facts):
 
 
 
+def check_target_wrapper_choice(ck, facts):
+    """TargetSetRefineParentWrapper<Parent>::fill_target_sets: which target refiner is used for a part with / without topology"""
+    R = "E10.target-wrapper-choice"
+    fns = [f for f in facts.functions if f.tk != "pattern" and f.body is not None and f.name == "fill_target_sets" and "TargetSetRefineParentWrapper" in f.cls]
+    if not fns:
+        ck.incomplete(R, "TargetSetRefineParentWrapper::fill_target_sets not instantiated")
+    for f in sorted(fns, key=lambda f: f.full):
+        ptype = short(f.param_type("parent") or "?").replace("const ", "").replace(" &", "")
+        key = "%s/parent=%s" % (short(f.cls), ptype)
+        ptrs = [p_ for p_ in f.params if "IndexSetHolder" in (f.type(p_["t"]) or "") and (f.type(p_["t"]) or "").rstrip().endswith("*")]
+        if len(ptrs) != 1:
+            ck.incomplete(R, "%s: the pointer to the coarse part's topology is not identifiable among the parameters" % key)
+            continue
+        np_ = norm_c10.NullPaths(f, ptrs[0]["d"], r"Intern::(Simple)?TargetRefineWrapper<.*>::refine$").analyse()
+        if np_.unknown:
+            ck.incomplete(R, "%s: `%s` uses %s in a way this rule does not understand" % (key, featlib.render(np_.unknown[0])[:90], ptrs[0]["n"]))
+            continue
+        simple = [(c, o) for c, o in np_.calls if "SimpleTargetRefineWrapper" in c["callee"]]
+        aware = [(c, o) for c, o in np_.calls if "SimpleTargetRefineWrapper" not in c["callee"]]
+        prob = []
+        for c, o in simple:
+            if "T" in o:
+                prob.append("SimpleTargetRefineWrapper::refine (line %s), which ignores the part's topology, is reached on a path on which %s is NOT known to be null: a part that carries "
+                            "its own topology gets targets refined without regard to its orientation (a case that cannot be served - e.g. the parent has no topology - must be refused, "
+                            "not routed to the simple refiner)" % (c.get("l"), ptrs[0]["n"]))
+        for c, o in aware:
+            if "F" in o:
+                prob.append("TargetRefineWrapper::refine (line %s) is reached on a path on which %s may be null" % (c.get("l"), ptrs[0]["n"]))
+        if not aware:
+            prob.append("the orientation-aware TargetRefineWrapper::refine is never called")
+        ck.ob(R, key, not prob, "; ".join(prob[:2]) or "simple refiner only where %s == nullptr, orientation-aware refiner only where it is non-null" % ptrs[0]["n"], f.file, (simple or aware or [({"l": f.line}, 0)])[0][0].get("l"))
+
+
+
 def is_container_type(ty):
     return bool(re.match(r"^(const )?std::(map|vector|deque|list|set|unordered_map|multimap)<", (ty or "").strip()))
 
@@ -3282,6 +3320,7 @@ def analyse(ck, facts, second_pass=False):
         check_topology_coverage(ck, facts)
         check_permute_coverage(ck, facts)
         check_boundary_select(ck, facts)
+        check_target_wrapper_choice(ck, facts)
         check_callsites(ck, facts)
         check_flips(T, ck, facts)
     # assertions met while evaluating the glue classes on concrete local indices (visible in DEBUG parses)
